@@ -165,8 +165,15 @@ func runC22(c *Ctx) {
 				inst := shortName(fn) + "→" + n
 				cl, ok := routeClass[n]
 				if !ok {
+					// A handler the table does not know is held to the PROTECTED rule: if it
+					// authenticates first (R-AUTH-DOM below) the property holds for it.
+					if u.Func(n) != nil {
+						protected[n] = true
+						r.Ok("R-ROUTE-TABLE", inst, u.Pos(cs.Instr.Pos()), "pattern "+pattern+" → not in the table of public exceptions: held to the PROTECTED rule")
+						continue
+					}
 					r.Viol("R-ROUTE-TABLE", inst, u.Pos(cs.Instr.Pos()),
-						"route "+pattern+" registers handler "+n+" which is not classified PROTECTED/PUBLIC in the checker's route table: a new route must be shown to authenticate or be one of the property's public exceptions")
+						"route "+pattern+" registers handler "+n+" which is neither a known public exception nor a function the checker can hold to the authentication rule")
 					continue
 				}
 				if cl[0] == "PROTECTED" {
